@@ -32,9 +32,13 @@ ObsCount ==
          /\ T > R.n => BelowReq(T - 1)                                       \* ... and not exceeded
 ObsNoExtraDraw == Len(R.draws) = T                                           \* one fresh sample per chance alignment, no more
 
-ObsChanceOrder == /\ \A k \in 1..T : k <= Len(R.draws) => R.chance[k].sid = R.draws[k].sid   \* results in sampling order
+\* one fresh sample per chance alignment: the chance alignments are alignments of exactly the continua drawn (C05) ...
+ObsChanceFresh == /\ Len(R.draws) = T => {R.chance[k].sid : k \in 1..T} = {R.draws[k].sid : k \in 1..Len(R.draws)}
+                  /\ Cardinality({R.chance[k].sid : k \in 1..T}) = T
                   /\ Cardinality({R.draws[k].sid : k \in 1..Len(R.draws)}) = Len(R.draws)    \* every sample a fresh object
                   /\ \A k \in 1..Len(R.draws) : R.draws[k].sid # 0                           \* never the input itself
+\* ... and they are held in sampling order (C06: the SEQUENCE of chance disorders is a function of the seed)
+ObsChanceOrder == \A k \in 1..T : k <= Len(R.draws) => R.chance[k].sid = R.draws[k].sid
 \* shuffle sampler: every sampled annotator has the durations and labels of one GROUND-TRUTH annotator
 SameSig(s1, s2) == Len(s1) = Len(s2) /\ \A i \in 1..Len(s1) : s1[i][2] = s2[i][2] /\ Abs(s1[i][1] - s2[i][1]) <= 1
 ObsSampleValid == \A k \in 1..Len(R.draws) :
@@ -60,16 +64,19 @@ ObsGamma == IF R.observed = 0 THEN R.gamma = 10000                           \* 
 ObsLeOne == R.gamma <= 10000
 ObsIdentical == R.identical = 1 => R.gamma = 10000 /\ R.observed = 0
 \* approx_gamma_range = (1 - observed / (expected (1 - p)), 1 - observed / (expected (1 + p))); refused without a precision level
-\* (1 - bound) * expected * (pb -+ pa) = observed * pb, as big naturals, 2e-3 relative (fixed-point inputs)
+\* (1 - bound) * expected * (pb -+ pa) = observed * pb, as big naturals on the 1e-6 grid: 1e-3 relative plus what one unit of
+\* rounding in each of the three logged values can move the two sides (the slack is exact, so the clause is sound on any grid)
+One6 == 1000000
 Prod3(a, b, c) == Mul(FromInt(a), Mul(FromInt(b), FromInt(c)))
-NearBig(x, y) == /\ Geq(Add(Mul(y, FromInt(1002)), FromInt(2000000)), Mul(x, FromInt(1000)))
-                 /\ Geq(Add(Mul(x, FromInt(1002)), FromInt(2000000)), Mul(y, FromInt(1000)))
+Slack(r, q) == Add(Mul(FromInt(R.exp6 + 1), FromInt(q)), Add(Mul(FromInt(One6 - r + 1), FromInt(q)), Mul(FromInt(One6), FromInt(R.pb))))
+NearBigS(x, y, s) == /\ Geq(Add(Mul(y, FromInt(1001)), Mul(s, FromInt(1000))), Mul(x, FromInt(1000)))
+                     /\ Geq(Add(Mul(x, FromInt(1001)), Mul(s, FromInt(1000))), Mul(y, FromInt(1000)))
 ObsRange ==
     IF R.hasprec = 0 THEN R.rexc = "ValueError"
-    ELSE (R.rexc = "" /\ R.expected > 0 /\ R.rlo <= 10000 /\ R.rhi <= 10000 /\ R.pb > R.pa) =>
-            /\ NearBig(Prod3(10000 - R.rlo, R.expected, R.pb - R.pa), Prod3(R.observed, 10000, R.pb))
-            /\ NearBig(Prod3(10000 - R.rhi, R.expected, R.pb + R.pa), Prod3(R.observed, 10000, R.pb))
-            /\ R.rlo <= R.gamma + 1 /\ R.gamma <= R.rhi + 1             \* gamma lies inside its own range
+    ELSE /\ (R.rexc = "" /\ R.r6ok = 1 /\ R.exp6 > 0 /\ R.rlo6 <= One6 /\ R.rhi6 <= One6 /\ R.pb > R.pa) =>
+               /\ NearBigS(Prod3(One6 - R.rlo6, R.exp6, R.pb - R.pa), Prod3(R.obs6, One6, R.pb), Slack(R.rlo6, R.pb - R.pa))
+               /\ NearBigS(Prod3(One6 - R.rhi6, R.exp6, R.pb + R.pa), Prod3(R.obs6, One6, R.pb), Slack(R.rhi6, R.pb + R.pa))
+         /\ (R.rexc = "" /\ R.expected > 0 /\ R.rlo <= 10000 /\ R.rhi <= 10000) => R.rlo <= R.gamma + 1 /\ R.gamma <= R.rhi + 1   \* gamma inside its own range
 
 DrawInMainThread == \A k \in 1..Len(R.draws) : R.draws[k].thread = 0
 DrawBeforeSubmit == /\ Len(R.submits) = Len(R.draws) + 1
@@ -90,6 +97,7 @@ Verdicts ==
     /\ Judge("ObsCount", ObsCount)
     /\ Judge("ObsNoExtraDraw", ObsNoExtraDraw)
     /\ Judge("ObsChanceOrder", ObsChanceOrder)
+    /\ Judge("ObsChanceFresh", ObsChanceFresh)
     /\ Judge("ObsSampleValid", ObsSampleValid)
     /\ Judge("ObsMode", ObsMode)
     /\ Judge("ObsObserved", ObsObserved)
